@@ -62,12 +62,14 @@ class NodeProxy:
         store.proxies.append(self)
 
     def get_left(self, key):
+        r = self.store.get_left(key)      # a failed fetch (leaf) hands out no child and is not cached by the node
         self.asked.append("left")
-        return self.store.get_left(key)
+        return r
 
     def get_right(self, key):
+        r = self.store.get_right(key)
         self.asked.append("right")
-        return self.store.get_right(key)
+        return r
 
     def is_leaf(self, key):
         self.asked.append("leaf")
@@ -80,7 +82,7 @@ def gen_inputs(ctx):
     for i in range(n):
         t = MUTABLE_TOP[i % len(MUTABLE_TOP)]
         inp = gen_history(rng, t, rng.randrange(2, 14), p_child=0.25)
-        inp["gs"] = sorted({rng.randrange(1, 64) for _ in range(6)})
+        inp["gs"] = [rng.randrange(1, 2 << rng.choice([2, 3, 4, 5, 6, 7])) for _ in range(8)]
         yield inp
 
 
@@ -102,10 +104,23 @@ def build(inp):
     shv = Shadow(t, v)
     shv.views[0] = vview
     shm = Shadow(t, v)
-    nav = [attempt(lambda g=g: VirtualNode(mat.hash_tree_root(), store).getter(g).merkle_root(), anyerr=True) for g in gs]
+    # navigation probes run on the SAME virtual root the view is built on (memoised state is shared), including
+    # paths that run through leaves
+    nav = [attempt(lambda g=g: vroot.getter(g).merkle_root(), anyerr=True) for g in gs]
     navm = [attempt(lambda g=g: mat.get_backing().getter(g).merkle_root(), anyerr=True) for g in gs]
+    from remerkleable.tree import leaf_iter
+    lv = attempt(lambda: [bytes(x.merkle_root()) for x in leaf_iter(vroot)], anyerr=True)
+    lm = attempt(lambda: [bytes(x.merkle_root()) for x in leaf_iter(mat.get_backing())], anyerr=True)
     obs = [[shv.observe(), nav]]
-    why = None if nav == navm else "navigation on the virtual node differs from the materialised tree"
+    # a root-keyed store cannot tell a zero summary (leaf) from an expanded zero subtree with the same root: the
+    # comparison with the materialised tree at NODE level presupposes that no leaf root is also a pair root
+    # (the premise `consistent` of the C20 theorems); views never navigate into summaries, so the view-level
+    # comparison below does not need it
+    leaf_roots = set(lm) if not isinstance(lm, E) else set()
+    consistent = not any(r in store.tbl for r in leaf_roots)
+    why = None if (nav == navm or not consistent) else "navigation on the virtual node differs from the materialised tree"
+    if why is None and consistent and lv != lm:
+        why = "leaf iteration over the virtual tree differs from the materialised tree (after the navigation probes)"
     coq_cmds = []
     for k, c in enumerate(cmds):
         if c[1] >= len(shv.views):
@@ -122,7 +137,7 @@ def build(inp):
             why = "command %d behaves differently on the virtual tree than on the materialised tree" % (k + 1)
     for pr in store.proxies:
         if why is None and len(set(pr.asked)) != len(pr.asked):
-            why = "a virtual node asked its source the same question twice: %r" % (pr.asked,)
+            why = "a virtual node obtained the same child / leaf answer from its source twice: %r" % (pr.asked,)
     coq = "(%s, %s, %s, %s)" % (ty_coq(t), val_coq(t, v), clist(coq_cmds), clist(cN(g) for g in gs))
     names = ["P:initial"] + ["P:step%d" % (i + 1) for i in range(len(cmds))]
     c = Case(inp, coq, obs, names, nontrivial=len(cmds) >= 2, kind=t[0])
